@@ -82,12 +82,15 @@ def run(ctx):
     exotic_pairs(ctx, rng)
     n = ctx.budget(400, 6000)
     tg = gen.TreeGen(rng, layout="partial", names=True, positions=True, none_items=0.05)
-    qg = gen.QueryGen(rng)
+    qg = gen.QueryGen(rng, long_nums=True)
     pairs = []
+    parsed_objs = []
     for i in range(n):
         if rng.random() < 0.2:
             try:
-                a = common.dump_tree(I.parse(qg.query()))
+                q = qg.query()
+                a = common.dump_tree(I.parse(q))
+                parsed_objs.append((q, I.parse(q)))
             except Exception:
                 a = tg.any()
         else:
@@ -103,6 +106,25 @@ def run(ctx):
                 b, how = m[0], "mut:" + m[1].split(" ")[0]
         else:
             b, how = tg.any(), "other"
+        nums = [nd for _, nd in common.tree_nodes(a) if "num" in nd and not nd["num"].get("imp") and nd["c"] != "Proximity"]
+        if nums and rng.random() < 0.15:
+            # numbers of 17 to 28 significant digits that differ in the last one (or not at all): still told apart
+            # exactly at the precision the library normalises with (seeded C09-G: a 16-digit context)
+            a = copy.deepcopy(a)
+            nd = rng.choice([x for _, x in common.tree_nodes(a) if "num" in x and not x["num"].get("imp")
+                             and x["c"] != "Proximity"])
+            digits = rng.randint(17, 28)
+            coeff = rng.randrange(10 ** (digits - 1), 10 ** digits - 1)
+            if coeff % 10 == 0:
+                coeff += 1
+            nd["num"] = dict(nd["num"], coeff=str(coeff), exp=-rng.randint(0, digits))
+            b = copy.deepcopy(a)
+            nb_ = next(x for _, x in common.tree_nodes(b) if x.get("num") == nd["num"])
+            if rng.random() < 0.6:
+                nb_["num"] = dict(nb_["num"], coeff=str(coeff + 1))
+                how = "long number, last digit"
+            else:
+                how = "long number, same"
         na, nb = common.normalize(a), common.normalize(b)
         for orig, norm in ((a, na), (b, nb)):
             probs = common.fidelity_problems(orig, norm)
@@ -186,6 +208,22 @@ def run(ctx):
                     ctx.fail("clone with the children prints differently",
                              {"node": nd, "clone": str(c), "orig": str(node)})
     ctx.count("clones", len(clone_reqs))
+    # ---- the same on the objects the PARSER builds (it hands numerals over as text; whatever it remembers of the
+    # spelling must survive a clone: seeded C09-G)
+    for q, root in parsed_objs:
+        stack = [root]
+        while stack:
+            node = stack.pop()
+            stack.extend(node.children)
+            c = node.clone_item()
+            c.children = list(node.children)
+            ctx.count("clones of parser-built nodes")
+            if not (c == node) or not (node == c):
+                ctx.fail("clone (given the children) of a node built by the parser is not equal to it",
+                         {"q": q, "node": common.dump_tree(node)})
+            if str(c) != str(node) or c.__str__(head_tail=True) != node.__str__(head_tail=True):
+                ctx.fail("clone (given the children) of a node built by the parser prints differently",
+                         {"q": q, "node": common.dump_tree(node), "clone": str(c), "orig": str(node)})
 
     # ---- model
     if ctx.model_ok:
